@@ -416,6 +416,7 @@ def check(chk):
     setting_value_source(chk, "TABLE-8")
     _defaults(chk, repo)
     _conditions_at_dispatch(chk, repo)
+    _enable_state_notifies(chk, repo)
 
     # ------------------------------------------------------------ PAIR-19
     f = repo.func("mpf/core/config_player.py", "ConfigPlayer._update_subscription")
@@ -477,6 +478,39 @@ def check(chk):
     st = [x for x in walk_local(f.node) if isinstance(x, ast.Assign) and src(x.targets[0]) == "subscription_list[template]"]
     chk.ob("PAIR-19", "the live subscription is stored where unload cancels it", bool(st) and src(st[0].value) == "subscription", f.where(), construct=f.ident,
            text="subscription stored")
+
+
+def _enable_state_notifies(chk, repo):
+    """NOTIFY-1 (enable state): a change of a device's `enabled` state wakes its subscribers whichever way the state is stored.  The state
+    lives in the device (`_enabled`) or, with persist_enable, in a player variable; the monitor's own attribute hook does not see either
+    for subclasses that carry their own monitor.  So every path of enable() / disable() that stores the new state also calls
+    notify_virtual_change("enabled", old, new) - in the method itself, or in the setter on *every* path of the setter."""
+    from sa.cfg import build_cfg
+    ED = "mpf/core/enable_disable_mixin.py"
+    cls = repo.cls(ED, "EnableDisableMixin")
+    setter = [x for x in cls.node.body if isinstance(x, ast.FunctionDef) and x.name == "enabled" and
+              any(src(d).endswith(".setter") for d in x.decorator_list)]
+    chk.need(len(setter) == 1, "NOTIFY-1", "EnableDisableMixin stores its enabled state through a setter", repo.func(ED, "EnableDisableMixin.enable"))
+    scfg = build_cfg(setter[0])
+    s_not = [n.id for n, c in scfg.calls_named("notify_virtual_change") if c.args and const_value(c.args[0]) == "enabled"]
+    setter_notifies = bool(s_not) and scfg.must_pass(scfg.entry.id, s_not) is None
+    for name, new in (("enable", "True"), ("disable", "False")):
+        f = repo.func(ED, "EnableDisableMixin." + name)
+        chk.analysed(f)
+        cfg = f.cfg()
+        st = [n for n in cfg.nodes if n.kind == "stmt" and isinstance(n.ast, ast.Assign) and src(n.ast.targets[0]) == "self.enabled" and src(n.ast.value) == new]
+        chk.need(st, "NOTIFY-1", "EnableDisableMixin.%s stores the new state" % name, f)
+        nots = [n.id for n, c in cfg.calls_named("notify_virtual_change") if c.args and const_value(c.args[0]) == "enabled"]
+        for n in st:
+            ok = setter_notifies or (bool(nots) and cfg.must_pass(n.id, nots) is None)
+            chk.ob("NOTIFY-1", "%s() wakes the subscribers of `enabled` whenever it changes the state (persisted in a player variable or not)" % name, ok,
+                   f.where(n.ast), detail="setter notifies on every path: %s; %s() notifies after the store: %s" % (setter_notifies, name, bool(nots)),
+                   construct=f.ident, text="enabled change notified in " + name)
+        for nid in nots:
+            c = [c for n_, c in cfg.calls_named("notify_virtual_change") if n_.id == nid][0]
+            ok = len(c.args) == 3 and src(c.args[2]) == new and src(c.args[1]) == ("False" if new == "True" else "True")
+            chk.ob("NOTIFY-1", "%s() reports the change as (old, new) = (%s, %s)" % (name, "False" if new == "True" else "True", new), ok, f.where(c),
+                   detail=src(c), construct=f.ident, text="enabled change values in " + name)
 
 
 def _conditions_at_dispatch(chk, repo):
@@ -716,6 +750,10 @@ def _flow(chk, f, fcfg, node, expr, subs, acc, what):
 def battery():
     from sa.battery import M
     return [
+        M("enabled change notified only for the unpersisted state", "mpf/core/enable_disable_mixin.py", "        self.enabled = True\n        self.notify_virtual_change(\"enabled\", False, True)      # type: ignore\n", "        self.enabled = True\n", "NOTIFY-1",
+          also=[("mpf/core/enable_disable_mixin.py", "        else:\n            self._enabled = value\n", "        else:\n            self._enabled = value\n            self.notify_virtual_change(\"enabled\", not value, value)\n")]),
+        M("twin: enabled change notified in the setter on both branches", "mpf/core/enable_disable_mixin.py", "        self.enabled = True\n        self.notify_virtual_change(\"enabled\", False, True)      # type: ignore\n", "        self.enabled = True\n", None,
+          also=[("mpf/core/enable_disable_mixin.py", "        else:\n            self._enabled = value\n", "        else:\n            self._enabled = value\n        self.notify_virtual_change(\"enabled\", not value, value)\n")]),
         M("global parameters memoised by name", "mpf/core/placeholder_manager.py", "    # pylint: disable-msg=too-many-return-statements\n    def get_global_parameters(self, name):", "    # pylint: disable-msg=too-many-return-statements\n    @lru_cache()\n    def get_global_parameters(self, name):", "MEMO-0"),
         M("bitwise bool ops", PM, "BOOL_OPERATORS = {ast.And: lambda a, b: a and b, ast.Or: lambda a, b: a or b}", "BOOL_OPERATORS = {ast.And: op.and_, ast.Or: op.or_}", "TABLE-7"),
         M("and/or swapped", PM, "BOOL_OPERATORS = {ast.And: lambda a, b: a and b, ast.Or: lambda a, b: a or b}", "BOOL_OPERATORS = {ast.And: lambda a, b: a or b, ast.Or: lambda a, b: a and b}", "TABLE-7"),
